@@ -236,20 +236,57 @@ def futStep (st : FutSt) (toks : List String) : FutSt × String :=
 
 def futHandler : Handler := { σ := FutSt, init := {}, step := futStep }
 
-/-! ### Lazy -/
+/-! ### Lazy
+
+Sequential lines (`call v` / `callp v`: one call run to completion; if `f` runs now it returns `v` /
+panics with `v`) answer `<v> runs=<n>` / `panic <v> runs=<n>`. Concurrent lines (gated `f`): `go` = a
+new caller enters (runs `f`, parks behind the running call, or takes the stored outcome); `ret v` /
+`pan v` = the running `f` returns `v` / panics with `v`, after which every parked caller wakes (the
+quiescent point the harness observes). They answer the status of every caller:
+`st=<c0>,<c1>,… runs=<n>` with `pend` (inside `f` or parked), `v<k>` (returned k), `p<k>` (panicked with k). -/
+
+def showOut : LOut → String
+  | .val v => s!"{v}"
+  | .pan v => s!"panic {v}"
+
+def showPc : CallPc → String
+  | .done (.val v) => s!"v{v}"
+  | .done (.pan v) => s!"p{v}"
+  | _ => "pend"
+
+def lazyObs (s : LState) : String :=
+  s!"st={",".intercalate (s.callers.map showPc)} runs={s.runs}"
+
+/-- the run of `f` (on the first caller found inside `f`) ends with `o`; every parked caller wakes -/
+def lazyEnd (s : LState) (o : LOut) : LState :=
+  match s.callers.findIdx? (· == .inF) with
+  | none => s
+  | some j =>
+    let s := (lstep lazyOnceGen s (.finish j o)).getD s
+    (List.range s.callers.length).foldl (fun s i => (lstep lazyOnceGen s (.wake i)).getD s) s
+
+def lazyCall (s : LState) (o : LOut) : LState × String :=
+  let j := s.callers.length
+  let s := { s with callers := s.callers ++ [.idle] }
+  let s := (lstep lazyOnceGen s (.enter j)).getD s
+  let s := match s.callers[j]? with
+    | some .inF => (lstep lazyOnceGen s (.finish j o)).getD s
+    | _ => s
+  (s, match s.callers[j]? with
+    | some (.done r) => s!"{showOut r} runs={s.runs}"
+    | _ => s!"stuck runs={s.runs}")
 
 def lazyStep (s : LState) (toks : List String) : LState × String :=
   match toks with
-  | ["call", fv] =>
+  | ["call", fv] => lazyCall s (.val (intOr fv))
+  | ["callp", fv] => lazyCall s (.pan (intOr fv))
+  | "go" :: _ =>
     let j := s.callers.length
     let s := { s with callers := s.callers ++ [.idle] }
     let s := (lstep lazyOnceGen s (.enter j)).getD s
-    let s := match s.callers[j]? with
-      | some .inF => (lstep lazyOnceGen s (.finish j (intOr fv))).getD s
-      | _ => s
-    (s, match s.callers[j]? with
-      | some (.done v) => s!"{v} runs={s.runs}"
-      | _ => s!"stuck runs={s.runs}")
+    (s, lazyObs s)
+  | ["ret", fv] => let s := lazyEnd s (.val (intOr fv)); (s, lazyObs s)
+  | ["pan", fv] => let s := lazyEnd s (.pan (intOr fv)); (s, lazyObs s)
   | _ => (s, "bad-op")
 
 def lazyHandler : Handler := { σ := LState, init := linit 0, step := lazyStep }
